@@ -397,9 +397,10 @@ _K = C9._KEYS
 
 
 def lifted_rng_counters(t, mi, uses, draws):
-  """random draws inside a lifted function are the plain code's draws: same keys
-  (as terms), counters advanced in the caller's scope, also when the same lifted
-  function is used several times in one apply and nothing is mutable"""
+  """random draws inside a lifted function: under checkpoint / map_variables they are
+  the plain code's draws (same keys as terms, counters advanced in the caller's
+  scope, also when the lifted function is used several times and nothing is
+  mutable); under cond they are reproducible and never repeat a key"""
   _, mk, mref = pick(C1.MUT, mi)
 
   def body(sc, x_):
@@ -433,7 +434,16 @@ def lifted_rng_counters(t, mi, uses, draws):
       S._fold_in_static = saved
     return got
   a, b = run(True), run(False)
-  return a == b and len(set(a)) == len(a)
+  if len(set(a)) != len(a):
+    return False                       # a key is never handed out twice
+  if t == 2:
+    # lax.cond traces BOTH branches (the stub executes both, as tracing does) and
+    # the inner scopes share the caller's live counters, so the second branch draws
+    # after the first: the draws are a deterministic function of the program, not
+    # those of the plain code (which runs one branch).  The property asks for
+    # reproducibility here, identity only for remat / map_variables.
+    return a == run(True) and len(a) == len(b)
+  return a == b
 
 
 EXPLANATION = (
